@@ -535,16 +535,19 @@ def run(tier, replay):
 
     # ---- 1. the theorems on the model -------------------------------------------------------------
     if not replay and not os.environ.get("C14_SKIP_MC"):      # (C14_SKIP_MC: debugging aid only)
-        mcs = [("MC_JsonMap_thorough.cfg" if thorough else "MC_JsonMap_quick.cfg", 8,
-                ["DeclStart", "DeclAddField", "DeclAddVariant", "LitLeaf", "LitOpen", "LitClose"]),
+        acts_all = ["DeclStart", "DeclAddField", "DeclAddVariant", "LitLeaf", "LitOpen", "LitClose"]
+        # (cfg, workers, coverage / vacuity guard for these actions)
+        mcs = [("MC_JsonMap_quick.cfg", 8, acts_all),
                ("MC_JsonMap_pairs.cfg", 4, ["DeclStart", "DeclAddField", "DeclAddVariant"])]
         if thorough:
-            mcs.append(("MC_JsonMap_triples.cfg", 8, ["DeclStart", "DeclAddField"]))
+            # the large configurations run without -coverage (it halves TLC's speed); the same actions are guarded above
+            mcs += [("MC_JsonMap_thorough.cfg", 8, None), ("MC_JsonMap_triples.cfg", 8, None)]
         for cfg, workers, acts in mcs:
-            r = tlc("MC_JsonMap.tla", cfg, workers=workers, coverage=True, timeout=2400, heap="6g")
+            r = tlc("MC_JsonMap.tla", cfg, workers=workers, coverage=acts is not None, timeout=2400, heap="6g")
             ctx.add_tlc("theorems, Dev={} (%s)" % cfg, r)
             ctx.require_tlc_ok(cfg, r)
-            ctx.require_cover(cfg, r, acts)
+            if acts:
+                ctx.require_cover(cfg, r, acts)
         for cfg, dev, inv in SENSITIVITY:
             r = tlc("MC_JsonMap.tla", cfg, workers=2, timeout=600)
             ctx.add_tlc("sensitivity: Dev={%s} must violate %s" % (dev, inv), r)
